@@ -8,7 +8,7 @@ TITLES = {l["id"]: l["title"] for l in map(json.loads, open(os.path.join(VERIF, 
 
 # property -> (level text, level note); only properties with >= 2 quick harnesses are claimed
 SCOPE = {
- "C01": "dictionary coder round trip on 0-1 symbolic bytes, decoder lemmas for literal + overlapping back-reference copies, rANS encoder with an empty table; rANS/FSE/Huffman table construction and whole-message round trips are beyond the caps and not claimed",
+ "C01": "dictionary coder round trip on 0-1 symbolic bytes, decoder lemmas for literal + overlapping back-reference copies, rANS encoder with an empty table (quick); one FSE encode/decode step lemma on a concrete 13-symbol table for every byte and every start-up state (thorough); rANS/FSE/Huffman table construction in general, the other state windows and whole-message round trips are beyond the caps and not claimed",
  "C02": "bit-level Match encode/decode round trip for all 8 variants with symbolic fields (incl. the variable-length format switches and the top of the Far3Long range) and BitWriter/BitReader for 6 width triples; sequence decoding (open known finding), compressor-layer framing and PA-Zip are not claimed",
  "C04": "rank1/rank0/get/select1/select0/len/count_ones against the popcount-prefix definition for BitVector, IL256 (cache off), SE256/SE512 (tables off), Simple, MixedIL256, Few, trivial and the scalar/BMI2 bulk entry points, 1-2 symbolic words at block boundaries; select caches/tables ON, adaptive and vector kernels are not claimed",
  "C06": "SmallMap<u8,u8> in its inline mode (<= 4 entries): every history of 2 operations from {insert, remove, get, get_mut, contains_key} on symbolic keys and values, and every single operation from a map that already holds 2 or 3 entries, against an array model (returned values, len, lookup of an arbitrary key, iteration yields each live entry exactly once); ZiporaHashMap in all its storage strategies, GoldHashMap, the string-keyed maps and promotion of SmallMap to the large map do not finish within the caps (36 GB / 45 min for one insert+get) and are NOT claimed",
